@@ -208,6 +208,7 @@ type rcptPlan struct {
 	// spelling choice
 	EffSpell  string
 	OrigSpell string
+	chained   bool // Orig is the address the previous recipient was rewritten to
 }
 
 type msgPlan struct {
@@ -235,6 +236,7 @@ type scenario struct {
 	effOnly      map[int]bool   // mailbox ids that are only rewrite targets
 	faults       map[string]*errSpec
 	faultCounter int
+	chainedRcpts int // recipients whose client-supplied address is another recipient's rewrite target
 }
 
 func genHeader(p *prng.R, utf8 bool) []byte {
@@ -328,7 +330,27 @@ func genScenario(p *prng.R, ci int) *scenario {
 		nr := p.Range(1, 5)
 		for ri := 0; ri < nr; ri++ {
 			var rp rcptPlan
-			if p.Chance(2, 5) {
+			if ri > 0 && m.Rcpts[ri-1].Orig != nil && !m.Rcpts[ri-1].chained && (sc.UTF8 || pureASCII(m.Rcpts[ri-1].EffSpell)) && p.Chance(1, 3) {
+				// (a client without SMTPUTF8 cannot have supplied a non-ASCII address, so in such a
+				// message only an all-ASCII rewrite target can double as a client-supplied address)
+				// chained aliases: the client ALSO addressed the message to the address the
+				// previous recipient was rewritten to, and that one is rewritten further
+				// (old@ -> info@, info@ -> mailbox@; OriginalRcpts = {info@: old@, mailbox@: info@}).
+				// A failure of mailbox@ must be reported under info@, one step back, not under old@.
+				prev := &m.Rcpts[ri-1]
+				e := genMailboxes(p, 1, nextID, true, used)[0]
+				nextID++
+				reg(e)
+				o := prev.Eff
+				rp.Orig, rp.Eff = &o, e
+				rp.OrigSpell = prev.EffSpell
+				rp.EffSpell = spell(p, e, sc.UTF8)
+				rp.chained = true
+				sc.effOrigin[e.id] = o.id
+				sc.effOnly[e.id] = true
+				delete(sc.effOnly, o.id) // also a client-supplied address now
+				sc.chainedRcpts++
+			} else if p.Chance(2, 5) {
 				// rewritten recipient: the client used Orig, the queue holds Eff
 				o := genMailboxes(p, 1, nextID, sc.UTF8, used)[0]
 				nextID++
@@ -732,6 +754,7 @@ func runCase(t *testing.T, r *rep.Reporter, c *rep.Case, ci int, capture *logCap
 	}
 	r.Count("reports_started", int64(startEvents))
 	r.Count("reports_expected", int64(nExp))
+	r.Count("recipients_addressed_to_another_recipients_rewrite_target", int64(sc.chainedRcpts))
 
 	senderOf := map[int]*msgPlan{}
 	for _, m := range sc.Msgs {
@@ -1182,4 +1205,13 @@ func judgeReport(r *rep.Reporter, sc *scenario, m *msgPlan, b *mx.DeliverySummar
 		return "-"
 	}()))
 	_ = filepath.Join
+}
+
+func pureASCII(s string) bool {
+	for i := 0; i < len(s); i++ {
+		if s[i] >= 0x80 {
+			return false
+		}
+	}
+	return true
 }
